@@ -382,7 +382,7 @@ inductive Fmt where
   | setNotSupported        -- SET IFEQ / IFGT
   | unknownZrbs | unknownScan | unknownHscan | unknownZscan
   | unknownAcl | unknownScript | configUnknown
-  | luaUnknownCmd | luaUnknownSet
+  | luaUnknownSet
   deriving DecidableEq, Repr
 
 def Fmt.pre : Fmt → Bytes
@@ -395,7 +395,6 @@ def Fmt.pre : Fmt → Bytes
   | .unknownAcl => s2b "Unknown ACL subcommand '"
   | .unknownScript => s2b "Unknown SCRIPT subcommand '"
   | .configUnknown => s2b "ERR unknown subcommand or wrong number of arguments for 'config|"
-  | .luaUnknownCmd => s2b "ERR Unknown Redis command '"
   | .luaUnknownSet => s2b "Unknown SET option: "
 
 def Fmt.suf : Fmt → Bytes
@@ -403,7 +402,6 @@ def Fmt.suf : Fmt → Bytes
   | .unknownAcl => s2b "'"
   | .unknownScript => s2b "'"
   | .configUnknown => s2b "' command"
-  | .luaUnknownCmd => s2b "' called from Lua"
   | _ => []
 
 /-- what a command body can answer instead of a command -/
@@ -414,11 +412,16 @@ inductive BErr where
   | fmt (f : Fmt) (payload : Bytes)
   deriving DecidableEq, Repr
 
-/-- the error of a parse: the arity test of the command's table entry, or the body -/
+/-- the error of a parse: the arity test of the command's table entry, the body, or (redis.call
+    translator only) a command name without a table entry -/
 inductive Err where
   | arity (text : Bytes)
   | body (e : BErr)
+  | unknown (name : Bytes)
   deriving DecidableEq, Repr
+
+def unknownPre : Bytes := s2b "ERR Unknown Redis command '"
+def unknownSuf : Bytes := s2b "' called from Lua"
 
 /-- observable error: `none` = panic, `some t` = `Err(t)` -/
 def BErr.text : BErr → Option Bytes
@@ -430,6 +433,7 @@ def BErr.text : BErr → Option Bytes
 def Err.text : Err → Option Bytes
   | .arity t => some t
   | .body e => e.text
+  | .unknown n => some (unknownPre ++ n ++ unknownSuf)
 
 deriving instance DecidableEq for Except
 
